@@ -98,6 +98,41 @@ impl<T> RwLock<T> {
       Ok(guard)
     }
   }
+  /// Like std: no blocking; `WouldBlock` while a writer holds the lock or waits for it.
+  pub fn try_read(&self) -> TryLockResult<RwLockReadGuard<'_, T>> {
+    let mut st = self.state.lock().unwrap();
+    if st.writer || st.writers_waiting > 0 {
+      return Err(TryLockError::WouldBlock);
+    }
+    st.readers += 1;
+    drop(st);
+    trace(b'r');
+    let guard = RwLockReadGuard { lock: self };
+    if self.poisoned.load(std::sync::atomic::Ordering::SeqCst) {
+      Err(TryLockError::Poisoned(PoisonError::new(guard)))
+    } else {
+      Ok(guard)
+    }
+  }
+  /// Like std: no blocking; `WouldBlock` while the lock is held by anyone.
+  pub fn try_write(&self) -> TryLockResult<RwLockWriteGuard<'_, T>> {
+    let mut st = self.state.lock().unwrap();
+    if st.writer || st.readers > 0 {
+      return Err(TryLockError::WouldBlock);
+    }
+    st.writer = true;
+    drop(st);
+    trace(b'w');
+    let guard = RwLockWriteGuard { lock: self };
+    if self.poisoned.load(std::sync::atomic::Ordering::SeqCst) {
+      Err(TryLockError::Poisoned(PoisonError::new(guard)))
+    } else {
+      Ok(guard)
+    }
+  }
+  pub fn get_mut(&mut self) -> LockResult<&mut T> {
+    Ok(self.data.get_mut())
+  }
   pub fn is_poisoned(&self) -> bool {
     self.poisoned.load(std::sync::atomic::Ordering::SeqCst)
   }
